@@ -59,11 +59,19 @@ C02OK(rec) ==
        /\ (RB => RbOK(post))
        /\ rec.op = "height" => HeightContract(post, rec.min, rec.max)
 ContractOK(rec) == C01OK(rec) /\ C02OK(rec)
+\* C15: clear hands over each element exactly once, touches none afterwards (the
+\* callback scribbles over the element's links), leaves a freshly initialised tree
+C15OK(rec) ==
+    rec.op = "clear" =>
+       /\ rec.out = "ok" /\ ~rec.post.bad
+       /\ ClearContract(Members(ToSt(rec.pre)), rec.ev)
+       /\ ToSt(rec.post) = Empty
 
 VARIABLE i
 Judge(rec) ==
     /\ (Level # 2 \/ C01OK(rec) \/ PrintT(<<"L2FAIL", "C01", rec.id>>))
     /\ (Level # 2 \/ C02OK(rec) \/ PrintT(<<"L2FAIL", "C02", rec.id>>))
+    /\ (Level # 2 \/ C15OK(rec) \/ PrintT(<<"L2FAIL", "C15", rec.id>>))
     /\ (Level # 1 \/ StepOK(rec) \/ PrintT(<<"L1DRIFT", "tree", rec.id>>))
 TInit == i = 1
 TNext == i < Len(Recs) /\ i' = i + 1 /\ Judge(Recs[i + 1])
